@@ -148,6 +148,27 @@ def valid_text(rng, cfg) -> str:
     return s[: cfg.get("max_len", 60)] if len(s) > cfg.get("max_len", 60) and rng.random() < 0.5 else s
 
 
+def numberish(rng) -> str:
+    """Number-like runs that scanners of other languages treat specially (scientific
+    notation with short and absurdly long exponents, long digit runs with a second dot,
+    leading zeros, hex).  The grammar has none of these: they are digit runs, letters
+    and dots -- whatever the parser answers, it must answer at once."""
+    digits = lambda k: "".join(rng.choice("0123456789") for _ in range(k))
+    r = rng.random()
+    if r < 0.35:
+        m = rng.choice(["1", "7", "3", "12", "2.5", digits(3), "0"])
+        e = rng.choice(["e", "E", "E", "e+", "E+", "E-", "e-"])
+        x = rng.choice(["2", "5", "10", "308", "400", digits(8), digits(11), digits(14), ""])
+        return m + e + x + rng.choice(["", "", "x", " + 1"])
+    if r < 0.7:
+        run = digits(rng.choice([5, 18, 22, 26, 30, 40, 60]))
+        tail = rng.choice([".5.0", "..", ".5.", ".0.0.0", "." + digits(20) + ".", ".5", ""])
+        return rng.choice(["", "", "2x + ", "."]) + run + tail
+    if r < 0.85:
+        return rng.choice(["000", "0", "00"]) + digits(rng.choice([1, 3, 20])) + rng.choice(["", ".", ".000"])
+    return rng.choice(["0x1F", "0b101", "1_000", "1,000.5", "1e", "E5", "1.e5", ".e1", "1.5.e3", "Infinity", "nan", "1e-"])
+
+
 def soup(rng, cfg) -> str:
     n = rng.randint(0, cfg.get("soup_len", 10))
     out = []
@@ -164,7 +185,7 @@ def soup(rng, cfg) -> str:
         elif r < 0.58:
             out.append(rng.choice(UNSUPPORTED))
         elif r < 0.62:
-            out.append(rng.choice(["1.2.3", ".", "..", "1..2", "0.0.0"]))
+            out.append(rng.choice(["1.2.3", ".", "..", "1..2", "0.0.0"]) if rng.random() < 0.5 else numberish(rng))
         else:
             out.append(rng.choice(ALPHABET_OPS))
     return "".join(out)
